@@ -1,8 +1,8 @@
 From Coq Require Import Extraction ExtrOcamlBasic List ZArith NArith.
-From MirV Require Import Mir.Opcode C11.Tables C11.Ast C11.BinIO C11.BinWfDec C10.TextOut C10.FloatFmt C10.TextScan C10.TextTokens C10.ParseProofs C11.TempNames.
+From MirV Require Import Mir.Opcode C11.Tables C11.Ast C11.BinIO C11.BinWfDec C10.TextOut C10.FloatFmt C10.TextScan C10.TextTokens C10.ParseProofs C10.TextWfDec C11.TempNames.
 Extraction Language OCaml.
 Extraction "c11x.ml" write_ctx read_ctx w_ctx r_ctx p_ctx norm_module writable_ctx insn_desc branch_code_p
   call_code_p all_opcodes opcode_num opcode_of_num insn_nops var_arity
   Z.add Z.mul Z.opp Z.of_N Z.to_N Z.of_nat N.of_nat N.add N.mul str p_int p_nat
   fmtF fmtD fmtLD parseF parseD parseLD scan_ctx wf_ctx_b tnorm_module
-  bin_item_counters bin_reg_counters text_item_counters relabel_ctx.
+  bin_item_counters bin_reg_counters text_item_counters relabel_ctx wf_text_b.
